@@ -222,6 +222,22 @@ func (e *Engine) applyContract(fr *Frame, st *State, fn *ssa.Function, c *Contra
 	for _, m := range c.Modifies {
 		e.havocModifies(fr, st, env, m, cname)
 	}
+	if c.NoFrame && !c.Trusted {
+		// the callee's frame is not verified: nothing may be assumed unchanged
+		names := make([]string, 0, len(e.vc.heapSort))
+		for name := range e.vc.heapSort {
+			names = append(names, name)
+		}
+		sortStrings(names)
+		for _, name := range names {
+			st.heap[name] = e.vc.declare("HN_"+name, e.vc.heapSort[name])
+			e.vc.written[name] = true
+		}
+		for g := range st.ghost {
+			st.ghost[g] = e.vc.declare("GN_"+g, e.ghostSort(g))
+		}
+		e.vc.note("callee " + c.Key + " has no verified frame (noframe): all heap state havocked at the call")
+	}
 	// a callee may allocate: watermark is non-decreasing
 	nwm := e.vc.declare("wm", "Int")
 	e.vc.assume("true", fmt.Sprintf("(>= %s %s)", nwm, st.wm))
